@@ -11,6 +11,11 @@ whatever the library's text looks like today), then the same call is made on a N
 NetworkX store and THAT result is returned to the caller.  The NetworkX backend implements the same abstract interface, so the
 callers in the base classes see the answers a database holding the same graph would give.  Primitives without a NetworkX
 counterpart (the CBM's own queries, _validate_graph) return what the real method returned on the permissive canned answers.
+
+Round 7: the real method's own statements are answered from the store as well (Shadow.server_view), so that state a primitive keeps
+(on the handle, in a class-level table) or hands to an enclosing primitive holds what the database holds; strings the server holds in
+Class / Type / Model / Layer / StitchNode properties are roles of their own (OVERLAY_ROLES); `handle_history`: histories of calls on
+one graph handle (a reader, then every statement-building method; the reader on a second handle; the subclasses' handles).
 """
 import inspect
 import json
@@ -42,6 +47,7 @@ class Shadow:
         self.depth = 0
         self.saved = []
         self.unshadowed = set()
+        self.tok = Tok()
 
     def __enter__(self):
         from fim.graph.networkx_property_graph import NetworkXGraphStorage, NetworkXGraphImporter
@@ -49,7 +55,7 @@ class Shadow:
         self.old_storage = NetworkXGraphStorage.storage_instance
         NetworkXGraphStorage.storage_instance = None
         self.tmp = tempfile.mkdtemp(prefix="c19-shadow-")
-        self.imp = fake.make_importer(None, import_dir=self.tmp)
+        self.imp = fake.make_importer(self.server_view, import_dir=self.tmp)
         self.nx_imp = NetworkXGraphImporter(logger=self.imp.log)
         # ... and, whether or not they call run() themselves (a rewrite may move the call into a helper), the methods the Neo4j
         # classes define under a name the NetworkX counterpart has too: the backend's side of the abstract interface
@@ -77,6 +83,54 @@ class Shadow:
         self.imp.driver = None      # Neo4jGraphImporter.__del__ closes the driver
         shutil.rmtree(self.tmp, ignore_errors=True)
         return False
+
+    # what the SERVER holding the store answers a statement of a real primitive with (round 7).  No Cypher is interpreted: a
+    # statement whose parameters name a node (graphId + nodeId) or a link (graphId + nodeA + nodeB) of the store is answered with
+    # that node's labels and properties / that link's type and properties, anything else with the permissive default.  What a
+    # real primitive derives from its results (return values handed to an enclosing primitive, state it keeps on the graph handle
+    # or anywhere else in the process) then derives from what the database HOLDS.  Labels and the Class property are distinct
+    # things on the server (the NetworkX backend has only the property): the label is the benign class, the property is a stored
+    # string like any other (roles of OVERLAY_ROLES: update_node_property(prop_name='Class', ...) / an imported document put it there)
+    def _store_node(self, gid, nid):
+        for _, d in self.nx_imp.storage.graphs.nodes(data=True):
+            if d.get("GraphID") == gid and d.get("NodeID") == nid:
+                return d
+        return None
+
+    def _store_link(self, gid, a, b):
+        g = self.nx_imp.storage.graphs
+        ids = {}
+        for i, d in g.nodes(data=True):
+            if d.get("GraphID") == gid and d.get("NodeID") in (a, b):
+                ids[d.get("NodeID")] = i
+        if a in ids and b in ids and g.has_edge(ids[a], ids[b]):
+            return g.edges[ids[a], ids[b]]
+        return None
+
+    def server_props(self, props):
+        out = dict(props)
+        p = OVERLAY_ROLES.get(self.tok.role)
+        if p and isinstance(out.get(p), str):
+            out[p] = out[p] + self.tok.payload
+        return out
+
+    def server_view(self, text, params):
+        gid = params.get("graphId")
+        c = {}
+        if isinstance(gid, str):
+            nid = params.get("nodeId")
+            if isinstance(nid, str):
+                d = self._store_node(gid, nid)
+                if d is not None:
+                    c["labels"] = [d.get("Class")]
+                    c["node_props"] = self.server_props(d)
+            a, b = params.get("nodeA"), params.get("nodeB")
+            if isinstance(a, str) and isinstance(b, str):
+                e = self._store_link(gid, a, b)
+                if e is not None:
+                    c["link_type"] = e.get("Class")
+                    c["link_props"] = dict(e)
+        return c
 
     # the NetworkX object standing for a Neo4j object
     def shadow_of(self, obj):
@@ -133,7 +187,7 @@ class Shadow:
         g = self.nx_imp.storage.graphs
         out = set()
         for _, d in g.nodes(data=True):
-            out.update(v for v in d.values() if isinstance(v, str))
+            out.update(v for v in self.server_props(d).values() if isinstance(v, str))
         for _, _, d in g.edges(data=True):
             out.update(v for v in d.values() if isinstance(v, str))
         return out
@@ -149,6 +203,11 @@ class Shadow:
 # must hand the same statement texts to the driver.
 
 ROLES = ["graph-id", "adm-graph-id", "node-id", "name", "site", "delegation-id", "pool-id", "label-value", "details", "mapped-id"]
+# strings the SERVER holds in properties the library normally fills from its own vocabularies (round 7): the NetworkX store keeps the
+# benign string (it derives labels from Class and the library parses Type / Layer into enums), the server's answers to the real
+# primitives (Shadow.server_view) carry the payload
+OVERLAY_ROLES = {"stored-class": "Class", "stored-type": "Type", "stored-model": "Model", "stored-layer": "Layer", "stored-stitch": "StitchNode"}
+ROLES += list(OVERLAY_ROLES)
 
 
 class Tok:
@@ -379,7 +438,7 @@ def ops():
             if not state["failed"] and w.sh.imp.driver.where[-1][2].endswith("._import_graph"):
                 state["failed"] = True
                 raise RuntimeError("transient import failure")
-            return {}
+            return w.sh.server_view(text, params)
         w.sh.imp.driver.canned = answer
         orig = npg.time.sleep
         npg.time.sleep = lambda x: None
@@ -396,7 +455,101 @@ def ops():
     op("Neo4jGraphImporter.cast_graph", lambda w, c: imp(w).cast_graph(graph_id=w.arm_id))
     op("Neo4jGraphImporter.delete_graph", lambda w, c: imp(w).delete_graph(graph_id=w.arm_id))
     op("Neo4jGraphImporter.delete_all_graphs", lambda w, c: imp(w).delete_all_graphs())
+    # ---- ONE graph handle used for a history of calls (round 7): what a handle learned from the database in an earlier call
+    # (a read, an add) must not shape the text of a later one.  `<reader>+<every primitive>`
+    for r in HANDLE_READERS:
+        op("Neo4jPropertyGraph.%s+later-calls:one-handle" % r, lambda w, c, r=r: handle_history(w, r))
+    op("Neo4jPropertyGraph.every-primitive+later-calls:one-handle", lambda w, c: handle_history(w, None))
+    # ... a table shared by the handles of a class / kept in a module: the reads through one handle, the later calls through another
+    for r in ("get_node_properties", "build_deep_node_sliver", "add_node"):
+        op("Neo4jPropertyGraph.%s+later-calls:two-handles:one-handle" % r, lambda w, c, r=r: handle_history(w, r, two=True))
+    # ... and the handles of the subclasses (their own primitives and the inherited ones)
+    for cn in (ASM, CBM, ADM):
+        op("%s.every-primitive+later-calls:one-handle" % cn, lambda w, c, cn=cn: handle_history(w, None, cname=cn))
+        op("%s.get_node_properties+later-calls:one-handle" % cn, lambda w, c, cn=cn: handle_history(w, "get_node_properties", cname=cn))
     return O
+
+
+# the calls that make a handle learn something about a node: reads of its properties / neighbourhood, existence checks, adding it
+HANDLE_READERS = ["get_node_properties", "get_node_json_property_as_object", "build_deep_node_sliver", "get_first_neighbor", "node_exists",
+                  "list_all_node_ids", "add_node", "update_node_property"]
+LAST = ["merge_nodes", "delete_node", "delete_graph"]       # (they remove what the others work on)
+
+
+def _handle_args(w, mname, f, node):
+    """keyword arguments of a primitive of the generic graph, by parameter name; None: no argument of that name known.  VALUE
+    arguments are the same strings in every world (what an argument does to the text of its own call is the argument sweep's
+    business; here the question is what the handle learned from the database)"""
+    table = {"node_id": w.n(node), "node_a": w.n(node), "node_b": w.n("c1"), "node_z": w.n("sw1"), "rel": "has", "kind": "has",
+             "label": "NetworkNode", "node_label": "Component", "ntype": "Server", "name": "srv1", "node_name": "srv1",
+             "prop_name": "Details", "prop_val": "rewritten", "props": {"Details": "rewritten twice"},
+             "rel1": "has", "node1_label": "NetworkService", "rel2": "connects", "node2_label": "ConnectionPoint",
+             "hops": [w.n("ns1")], "other_graph": w.graph("Neo4jPropertyGraph", w.other_id)}
+    if mname == "get_node_json_property_as_object":
+        table["prop_name"] = "Labels"
+    if mname == "add_node":
+        table["props"] = {"Name": "hh-added", "Type": "Server"}
+    kw = {}
+    for n, p in list(inspect.signature(f).parameters.items())[1:]:
+        if n in table:
+            kw[n] = table[n]
+        elif p.default is inspect.Parameter.empty:
+            return None
+    return kw
+
+
+_HANDLE_PRIMS = {}
+_KNOWN_ARGS = {"node_id", "node_a", "node_b", "node_z", "rel", "kind", "label", "node_label", "ntype", "name", "node_name", "prop_name", "prop_val",
+               "props", "rel1", "node1_label", "rel2", "node2_label", "hops", "other_graph"}
+
+
+def handle_prims(cname="Neo4jPropertyGraph"):
+    """the public methods the Neo4j classes themselves define (the statement-building side of the interface) that a handle of class
+    `cname` has and whose arguments can be made up by name, destructive ones last"""
+    if cname not in _HANDLE_PRIMS:
+        K = _neo()
+        found = []
+        for n in dir(K[cname]):
+            owner = [c for c in K[cname].__mro__ if n in c.__dict__][0]
+            f = owner.__dict__[n]
+            if owner not in K.values() or not inspect.isfunction(f) or n.startswith("_"):
+                continue
+            ps = list(inspect.signature(f).parameters.items())[1:]
+            if all(k in _KNOWN_ARGS or p.default is not inspect.Parameter.empty for k, p in ps):
+                found.append(n)
+        _HANDLE_PRIMS[cname] = sorted(found, key=lambda n: (LAST.index(n) if n in LAST else -1, n))
+    return _HANDLE_PRIMS[cname]
+
+
+def handle_history(w, reader, cname="Neo4jPropertyGraph", two=False):
+    """on ONE handle: the reader, then a primitive, for every primitive (the reader again before each: a primitive may make the handle
+    forget); the node is one the store holds, or the one the reader adds.  `two`: the reader runs on a second handle of the same graph"""
+    g = w.graph(cname)
+    g_read = w.graph(cname) if two else g
+    node = "hh-added" if reader == "add_node" else "nn1"
+    prims = handle_prims(cname)
+
+    def call(m, h=None):
+        h = g if h is None else h
+        f = getattr(type(h), m)
+        kw = _handle_args(w, m, f, node)
+        if kw is None:
+            return
+        try:
+            getattr(h, m)(**kw)
+        except Exception as ex:     # (the node is gone, the link does not exist, a stored string the library validates ...)
+            errs.append("%d:%s" % (len(errs), type(ex).__name__))
+    errs = []
+    if reader is None:              # every primitive after every other one
+        for m in [m for m in prims if m not in LAST] + prims:
+            call(m)
+    else:
+        for m in prims:
+            call(reader, g_read)
+            call(m)
+    if errs:                        # which calls failed is part of the outcome: runs are compared only when it is the same
+        import zlib
+        raise type("CallsFailed_%08x" % zlib.crc32(",".join(errs).encode()), (Exception,), {})()
 
 
 def _renamed(w, s, which):
@@ -436,7 +589,8 @@ def run_op(prims, name, role=None, payload=""):
     the operation or that was handed over as a parameter)"""
     setup, run = ops()[name]
     with Shadow(prims) as sh:
-        w = World(sh, Tok(role, payload))
+        sh.tok = Tok(role, payload)
+        w = World(sh, sh.tok)
         try:
             ctx = setup(w) if setup else None
         except Exception as ex:     # the world cannot be brought into the state the operation starts from (a validated value)
